@@ -40,8 +40,10 @@ def cfgs_for(g, unit, tier):
         base = unit.configs
     else:
         base = ['base']
-    if tier == 'thorough' and 'allcfgs' not in g.attrs and not g.configs:
-        base = list(dict.fromkeys(base + ALL_CFGS))
+    # the thorough tier adds configurations only where a unit or group asks for them (thorough_configs=...): contracts written for the
+    # configurations a unit declares are not automatically valid under ASSERT=1 / fence configurations (extra assertions in the code)
+    if tier == 'thorough' and unit.thorough_configs and not g.configs:
+        base = list(dict.fromkeys(base + unit.thorough_configs))
     if tier == 'thorough' and g.attrs.get('thorough_configs'):
         base = g.attrs['thorough_configs'].split(',')
     return base
